@@ -65,16 +65,22 @@ class Aff(AbstractValue):
         if o is None:
             return Unknown('aff-op')
         a, b = (o, self) if reflected else (self, o)
+        r = None
         if op is ast.Add:
-            return a.add(b)
-        if op is ast.Sub:
-            return a.add(b, -1)
-        if op is ast.Mult:
+            r = a.add(b)
+        elif op is ast.Sub:
+            r = a.add(b, -1)
+        elif op is ast.Mult:
             if a.is_const():
-                return b.scale(a.const)
-            if b.is_const():
-                return a.scale(b.const)
-        return Unknown('aff-nonlinear')
+                r = b.scale(a.const)
+            elif b.is_const():
+                r = a.scale(b.const)
+        elif a.is_const() and b.is_const() and op in (ast.Mod, ast.FloorDiv) and b.const != 0:
+            return a.const % b.const if op is ast.Mod else a.const // b.const
+        if r is None:
+            return Unknown('aff-nonlinear')
+        # a difference of positions that cancels out is a plain number again (e.g. a run length end - start)
+        return r.const if r.is_const() else r
 
     def _strmul(self, s):
         return LenStr(self.scale(len(s)), label='rep:' + s[:1])
